@@ -413,7 +413,10 @@ func (c *SimConn) ClosedAt() (bool, time.Duration) {
 
 func (c *SimConn) LocalAddr() net.Addr           { return c.laddr }
 func (c *SimConn) RemoteAddr() net.Addr          { return c.raddr }
-func (c *SimConn) SetDeadline(t time.Time) error { return nil }
+func (c *SimConn) SetDeadline(t time.Time) error {
+	c.SetReadDeadline(t)
+	return c.SetWriteDeadline(t)
+}
 func (c *SimConn) SetReadDeadline(t time.Time) error {
 	c.mu.Lock()
 	c.rdeadline = t
